@@ -24,9 +24,15 @@ func init() {
 		Rule: "CoeffUint64/Coeff: every (n,k) with n <= 80 (k up to n+2, both sides), every n within +-3 of the four exact thresholds per k <= 40 computed by the oracle " +
 			"(largest n with C*k <= max, largest n with C <= max, max = 2^64-1 and 2^63-1) on both sides k and n-k, powers of two +-1 for k <= 3, seeded (n,k) concentrated around the thresholds; Coeffs(n) n <= 66; " +
 			"Unrank: all r below a bound for k <= 6 (8), +-2 around C(l,k) boundaries on a ladder of l up to MaxInt for k >= 3, seeded 63-bit ranks, k = 1, 2 only with <= 10^7 expected loop steps; " +
-			"Rank: seeded increasing sequences around the int boundary; CombinationsColex(n,k) n <= 12 position by position. " +
+			"Rank: seeded increasing sequences around the int boundary; CombinationsColex(n,k) n <= 12 (k >= 4: n <= 14 (18)) position by position; " +
+			"the number of positions k and the room n-k as dimensions of that comparison: k = 33, 48, 62..68, 126..132 (thorough also 96, 97, 190..194, 254..259, 300, 513) and seeded k in 69..272, for each the whole family of the k-subsets of {0..k+1} " +
+			"(k <= 68 and k = 130; thorough k <= 200; else its first 2k+40 values) through the iterator, Unrank(i,k) and Rank of the value, and the first values (the iterator has no seek; they do not depend on n) for n = k, k+1, k+3, k+64, k+65, 2k, k+129, 2k+131, 2^40; " +
+			"k = 1, 2, 3 over ground sets of 13..257 elements (whole families, k = 3 beyond n = 34 the first 2500 (20000)); the oracle sequence is the textbook successor walk, every member certified by its big-integer rank; " +
+			"a step that rewrites more than 64 (128) low positions must occur (counters colex:steps_rewriting_more_than_64/128_low_positions). " +
 			"Process state across calls: every judged Unrank result and Coeffs table of a unit is kept (the slice itself) and read again after the next calls, at checkpoints and at the end of the unit; " +
-			"at a checkpoint the caller overwrites every kept result with a marker of its own (results sharing memory read each other's marker) and the calls next to the last one (rank+1, same, rank-1; same table) are repeated; " +
+			"the caller appends to what it was given (whether a result has spare capacity is not judged, that the append shows in no other result and in no later call is): at a checkpoint to every kept result (1, 2, len, len+3 values of a marker of its own) and a row to the outer slice of every table, " +
+			"after Coeffs returned in turn nothing / every half row completed by symmetry by appending C(m,m-k), rows ascending / the same descending / a marker appended to every row and to the outer slice, the other rows read again after every row, between two Unrank calls to the result of two or three calls before; " +
+			"at a checkpoint the caller then overwrites every kept result with a marker of its own (results sharing memory read each other's marker) and the calls next to the last one (rank+1, same, rank-1; same table) are repeated; " +
 			"order of the calls as a dimension: windows of consecutive ranks (at 0, across C(l,k) boundaries on a ladder of l, at 63-bit ranks, at MaxInt) swept ascending, descending, each twice, zigzag, strided, outside-in, random with repeats, random walk, " +
 			"with one k, two k alternating / in blocks / another k between every pair, Rank (on the returned slice, through a reused buffer), Coeff, Coeffs called in between, the caller editing a result before the next call; " +
 			"complete tables of the k-subsets of {0..n-1} (n <= 9 (12)) filled ascending, descending, randomly, alternating k and n-k and verified afterwards; Coeffs(n) descending, repeated, random, with edited tables. " +
@@ -34,7 +40,8 @@ func init() {
 		Assumptions: []string{
 			"oracle: math/big binomials by the exact multiplicative formula, cross-checked against additive Pascal rows, math/big.Binomial and published values; colex unrank by binary search on the monotone predicate C(l,j) <= m, cross-checked against the numeric order of bit masks (harness code, shares nothing with the library)",
 			"termination of Unrank is judged as bounded progress: the CPU budget of the engine (10^3 x the cost of any correct run of this workload)",
-			"a slice returned by Unrank or Coeffs belongs to the caller: later calls into the package do not write to it, no two results share memory, and what the caller writes into it does not influence later results (spare capacity beyond len is observed, not judged)",
+			"a slice returned by Unrank or Coeffs belongs to the caller: later calls into the package do not write to it, no two results share memory, and what the caller writes into it or appends to it does not influence other results or later results (whether a result has spare capacity beyond len is observed, not judged; that an append to one result does not write into another result is judged)",
+			"CombinationsColex: only the values it delivers are judged here (the value at position i is the set of rank i, and no fewer than min(C(n,k), N) values come); what Next returns after the last subset is recorded, the iterator property judges it",
 			"Unrank(r > 0, 0), negative ranks, negative or non-increasing Rank arguments, Coeff with n < 0 and Coeffs beyond n = 66 are not fixed by the documentation: observed, not judged",
 		},
 		Run:            run,
@@ -54,6 +61,15 @@ func init() {
 			"state:order:table/ascending", "state:order:table/descending", "state:order:table/random",
 			"state:tables_held_until_end_of_unit", "state:tables_read_again_after_the_next_calls", "state:order:coeffs/descending", "state:order:coeffs/random/edited",
 			"state:Coeffs_after_caller_overwrote_earlier_tables", "state:units_with_ledger_verified_at_end",
+			// many positions / much room in CombinationsColex vs Rank / Unrank
+			"colex:steps_rewriting_more_than_64_low_positions", "colex:steps_rewriting_more_than_128_low_positions",
+			"colex:positions_checked:k33..64", "colex:positions_checked:k65..128", "colex:positions_checked:k>128",
+			"colex:positions_also_through_Rank_and_Unrank:k65..128", "colex:positions_also_through_Rank_and_Unrank:k>128",
+			"colex:families:n-k65..128", "colex:families:n-k>128", "colex:whole_families", "colex:prefixes_of_families_too_large_to_drain",
+			// the caller appends to what it was given
+			"state:caller_appended_to_results_and_all_were_read_again", "state:tables_with_all_rows_completed_by_appending_and_the_other_rows_read_again",
+			"state:half_rows_completed_by_appending", "state:caller_appended_a_row_to_the_outer_slice_of_a_table",
+			"state:caller_appends_to_an_earlier_result_between_calls", "state:results_read_again_after_the_caller_appended_to_another",
 		},
 	})
 }
@@ -586,6 +602,10 @@ func run(c *engine.Ctx) {
 		})
 	}
 
+	// 6a. CombinationsColex with MANY positions (k and n-k at and beyond 64 / 65 / 66 / 128 / 129 / 130) and with few
+	// positions over a wide ground set: the families cannot be drained there, their first values can
+	colexLargeUnits(c, m)
+
 	// 7. Unrank: all small ranks
 	maxR, maxK := 5000, 6
 	if c.Thorough() {
@@ -756,6 +776,186 @@ func (m *mon) colex(n, k int) {
 		}
 	}
 	c.NTDistinct(1)
+}
+
+// colexPrefix judges the first N values of CombinationsColex(n,k), k <= n (all of
+// them when the family has no more than N members): the value at position i
+// must be the k-set of colex rank i.  The oracle walks the textbook successor
+// and certifies every member by its big-integer rank (a strictly increasing
+// sequence of rank i is the i-th set); viaLib also asks the library's Unrank
+// for rank i and its Rank for the value.  The iterator has no seek, so the
+// first values are all that can be reached in a large family; they do not
+// depend on n.
+func (m *mon) colexPrefix(n, k, N int, viaLib bool) {
+	c := m.c
+	args := "n=" + is(n) + ",k=" + is(k)
+	whole := false
+	if f, ok := bigcomb.Capped(uint64(n), uint64(k), big.NewInt(int64(N))); ok {
+		N, whole = int(f.Int64()), true
+	}
+	var it *itertools.CombinationColexIterator
+	if pi := c.Call("CombinationsColex|"+args, func() { it = itertools.CombinationsColex(n, k) }); pi != nil {
+		c.Violation("CombinationsColex|panic|"+args, map[string]interface{}{"api": "CombinationsColex", "n": n, "k": k}, pi.String(), "an iterator")
+		return
+	}
+	cur := make([]uint64, k)
+	for i := range cur {
+		cur[i] = uint64(i)
+	}
+	bucket := func(v int) string {
+		switch {
+		case v > 128:
+			return ">128"
+		case v > 64:
+			return "65..128"
+		case v > 32:
+			return "33..64"
+		}
+		return "<=32"
+	}
+	for idx := 0; idx < N; idx++ {
+		if idx > 0 {
+			j, rew := bigcomb.ColexNext(cur)
+			// what the step of the order does here (read off the oracle's sequence, not off the library)
+			c.ObsMax("colex:highest_position_moved_by_a_step", j)
+			c.ObsMax("colex:most_low_positions_rewritten_by_one_step", rew)
+			if rew > 64 {
+				c.Obs("colex:steps_rewriting_more_than_64_low_positions", 1)
+			}
+			if rew > 128 {
+				c.Obs("colex:steps_rewriting_more_than_128_low_positions", 1)
+			}
+		}
+		if r := bigcomb.RankBig(cur); !r.IsInt64() || r.Int64() != int64(idx) {
+			c.Inconclusive(fmt.Sprintf("oracle: successor walk for k=%d is at %v at position %d, which has rank %v", k, cur, idx, r))
+			return
+		}
+		var ok bool
+		var val []int
+		pi := c.Call("CombinationsColex.Next|"+args+",i="+is(idx), func() {
+			ok = it.Next()
+			if ok {
+				val = append([]int(nil), it.Value()...)
+			}
+		})
+		c.Eval(1)
+		detail := map[string]interface{}{"api": "CombinationsColex", "n": n, "k": k, "position": idx}
+		if pi != nil {
+			c.Violation("CombinationsColex|panic|"+args, detail, pi.String(), fmt.Sprint(cur))
+			return
+		}
+		if !ok {
+			c.Violation("colex-order|short|"+args, detail, fmt.Sprintf("Next() = false at position %d", idx), fmt.Sprintf("at least %d subsets, the one at this position being %v", N, cur))
+			return
+		}
+		if !eqU(val, cur) {
+			c.Violation("colex-order|differs|"+args, detail, fmt.Sprintf("position %d: %v", idx, val), fmt.Sprintf("%v (the %d-set of colex rank %d)", cur, k, idx))
+			return
+		}
+		c.Obs("colex:positions_checked", 1)
+		c.Obs("colex:positions_checked:k"+bucket(k), 1)
+		if viaLib {
+			if !m.unrank(idx, k, append([]uint64(nil), cur...), false) {
+				return
+			}
+			if !m.rank(val, false) {
+				return
+			}
+			c.Obs("colex:positions_also_through_Rank_and_Unrank:k"+bucket(k), 1)
+		}
+	}
+	c.NTDistinct(1)
+	c.Obs("colex:families:n-k"+bucket(n-k), 1)
+	if !whole {
+		c.Obs("colex:prefixes_of_families_too_large_to_drain", 1)
+		return
+	}
+	c.Obs("colex:whole_families", 1)
+	// termination of the iteration is the iterator property's business: recorded, not judged
+	var more bool
+	if pi := c.Call("CombinationsColex.Next|"+args+",i="+is(N), func() { more = it.Next() }); pi != nil || more {
+		c.Obs("colex:Next_after_the_last_subset_not_false(unjudged)", 1)
+	} else {
+		c.Obs("colex:Next_after_the_last_subset_false", 1)
+	}
+}
+
+// colexLargeUnits: the number of positions k and the room n-k as dimensions of
+// the comparison of CombinationsColex with Rank / Unrank.  A step of the order
+// that moves position j rewrites the j positions below it; in the family of the
+// k-subsets of {0..k+1} (C(k+2,2) members) every j < k occurs with all of them
+// changing, and the first 2k+2 values of any family contain the steps for
+// j = k-1 and k-2.
+func colexLargeUnits(c *engine.Ctx, m *mon) {
+	type job struct {
+		n, k, N int
+		viaLib  bool
+	}
+	ks := []int{33, 48, 62, 63, 64, 65, 66, 67, 68, 126, 127, 128, 129, 130, 131, 132}
+	wholeUpTo, deepAt := 68, 130
+	if c.Thorough() {
+		ks = append(ks, 96, 97, 190, 191, 192, 193, 194, 254, 255, 256, 257, 258, 259, 300, 513)
+		wholeUpTo = 200
+	}
+	for i := 0; i < c.Pick(3, 12); i++ {
+		rg := c.Rand("colex-large-k", i)
+		k := 69 + rg.Intn(57)
+		if i%3 == 2 {
+			k = 133 + rg.Intn(140)
+		}
+		dup := false
+		for _, x := range ks {
+			dup = dup || x == k
+		}
+		if !dup {
+			ks = append(ks, k)
+		}
+	}
+	for _, k := range ks {
+		k := k
+		m.unit(fmt.Sprintf("colex/many-positions/k=%d", k), func() {
+			N := 2*k + 40
+			if k <= wholeUpTo || k == deepAt {
+				N = (k+2)*(k+1)/2 + 1 // the whole family of n = k+2
+			}
+			jobs := []job{{k + 2, k, N, true}, {k, k, 3, false}, {k + 1, k, k + 5, false},
+				// room above: the same first values whatever n is
+				{k + 3, k, c.Pick(k+5, 6*k), false}, {k + 64, k, k + 5, false}, {k + 65, k, k + 5, false}, {2 * k, k, c.Pick(k+5, 3*k), false},
+				{k + 129, k, k + 5, false}, {2*k + 131, k, k + 5, false}, {1 << 40, k, 2*k + 40, false}}
+			for _, j := range jobs {
+				m.colexPrefix(j.n, j.k, j.N, j.viaLib)
+				if c.Stopped() {
+					return
+				}
+			}
+		})
+	}
+	// few positions, wide ground set
+	for _, n := range []int{13, 14, 15, 16, 17, 31, 32, 33, 34, 63, 64, 65, 66, 67, 127, 128, 129, 130, 131, 257} {
+		n := n
+		m.unit(fmt.Sprintf("colex/wide/n=%d", n), func() {
+			m.colexPrefix(n, 1, 1<<30, true)
+			m.colexPrefix(n, 2, 1<<30, true)
+			if n <= 34 || c.Thorough() && n <= 67 {
+				m.colexPrefix(n, 3, 1<<30, true)
+			} else {
+				m.colexPrefix(n, 3, c.Pick(2500, 20000), true) // the first values only
+			}
+		})
+	}
+	// every k for some n beyond the exhaustive n <= 12
+	ns := []int{13, 14}
+	if c.Thorough() {
+		ns = []int{13, 14, 15, 16, 17, 18}
+	}
+	for _, n := range ns {
+		for k := 4; k <= n; k++ {
+			n, k := n, k
+			m.unit(fmt.Sprintf("colex/n=%d,k=%d", n, k), func() {
+				m.colexPrefix(n, k, 1<<30, true)
+			})
+		}
+	}
 }
 
 func seededCoeff(c *engine.Ctx, m *mon) {
